@@ -179,6 +179,11 @@ func c14Run(c *c14Case, fields []c14Field, w *bufio.Writer) {
 			argValues[splitup[0]] = splitup[1]
 		}
 	}
+	// hermes/run.go:77-81: the SAME map goes through ParseCropOverwrites before readConfig gets it (call sequence
+	// checked against the source on every run by lib/props/c14.py)
+	if _, err := hermes.ParseCropOverwrites(argValues); err != nil {
+		fmt.Fprintf(w, "ORACLE crop-parse case=%d: valid crop override arguments rejected: %v; line=%q\n", c.ID, err, strings.Join(c.Tokens, " "))
+	}
 	g := hermes.NewGlobalVarsMain()
 	g.Session = hermes.NewHermesSession()
 	hp := hermes.NewHermesFilePath(c.Root, "p", "u", "", "")
@@ -403,6 +408,9 @@ func c14Generate(r *rng, fields []c14Field, n int, dir string) []*c14Case {
 			c.Tokens = append(c.Tokens, pick([]string{"project=p", "plotNr=1", "latitude=3", "Foo=bar", "novalue", "Latitude=1=2", "=x", "StartYear", "fcode=109_120",
 				"ETpot==2", "Altitude=5=", "resultfolder=RESULT/x", "c_TSUM_1=200", "soilId=075"}))
 		}
+		if r.chance(0.3) { // crop override arguments share the map (and the prefix "CropFile") with the configuration keys
+			c.Tokens = append(c.Tokens, "CropFile=PARAM.WW", "c_TSUM_1=200", "c_MAXAMAX=50")
+		}
 		// the default EndDate 31122010 is no date in the month-first format: keep the pair date-safe
 		{
 			en := c.typed["Dateformat"] == "i3"
@@ -476,6 +484,38 @@ func c14Generate(r *rng, fields []c14Field, n int, dir string) []*c14Case {
 		c.yaml = f.Name + ": " + text + "\n"
 		c.typed[f.Name] = typed
 		c.File = [][2]interface{}{{f.Name, typed}}
+		cases = append(cases, c)
+	}
+	// ----- per-key sweep on the LINE, together with crop override arguments: every configuration key in turn is
+	// given on a line that also carries CropFile=... and c_...=...; the run must use the line's value
+	for _, f := range fields {
+		c := &c14Case{Group: group, ID: id, Kind: "linesweep", PF: map[string]string{}, typed: map[string]interface{}{}}
+		group++
+		id++
+		d := f.Default.(string)
+		var text string
+		switch {
+		case f.Name == "EndDate":
+			text = "05072011"
+		case f.Type == "hermes.DateFormat":
+			text = "3"
+			c.Tokens = append(c.Tokens, "EndDate=05072011")
+		case f.Type == "hermes.GroundWaterFrom":
+			text = "2"
+		case f.Kind == "float64":
+			bits, _ := strconv.ParseUint(d[1:], 10, 64)
+			text = strconv.FormatFloat(math.Float64frombits(bits)+2.5, 'g', -1, 64)
+		case f.Kind == "int":
+			v, _ := strconv.ParseInt(d[1:], 10, 64)
+			text = strconv.FormatInt(v+2, 10)
+		case f.Kind == "string":
+			text = d[1:] + "y"
+		case f.Kind == "bool":
+			text = map[string]string{"b1": "off", "b0": "on"}[d]
+		default:
+			continue
+		}
+		c.Tokens = append(c.Tokens, "c_KC_2=1.1", f.Name+"="+text, "CropFile=PARAM.WW", "c_TSUM_1=200")
 		cases = append(cases, c)
 	}
 	// ----- sequences on a project WITHOUT config.yml: earlier lines (real Run) carry overrides, this line omits some
